@@ -273,6 +273,39 @@ def main(tier, seed):
         res.checks += 1
         if bad:
             break
+    # two calls interleaved at byte granularity: the outer message is a generator that, just before handing over its byte k
+    # (k = 0..len, i.e. every point at which the function can be suspended while it consumes its argument), runs a complete
+    # second call.  Every (outer, inner, k) of the family is enumerated; both results must be the serial CRC.
+    nested = 0
+    bad = False
+    for i, outer in enumerate(fam):
+        for j, inner in enumerate(fam):
+            for k in range(len(outer) + 1):
+                inner_got = []
+
+                def gen(outer=outer, inner=inner, k=k, inner_got=inner_got):
+                    for pos in range(len(outer) + 1):
+                        if pos == k:
+                            inner_got.append(crc7(inner))
+                        if pos < len(outer):
+                            yield outer[pos]
+
+                res.executions += 1
+                nested += 1
+                try:
+                    got = crc7(gen())
+                except Exception as e:  # noqa
+                    got = f"{type(e).__name__}: {e}"
+                res.checks += 1
+                if got != want[i] or inner_got != [want[j]]:
+                    res.violation("result-depends-on-overlapping-call", f"crc7({list(outer)}) with a complete crc7({list(inner)}) run before its byte {k} is consumed: outer = {got} (expected {want[i]}), inner = {inner_got} (expected {[want[j]]})", dict(kind="nested-call", outer=list(outer), inner=list(inner), at=k))
+                    bad = True
+                    break
+            if bad:
+                break
+        if bad:
+            break
+    res.bounds["nested_call_interleavings"] = nested
     # many distinct messages, then every one of them again (bounded memo tables)
     for n in range(1, 41):
         mod = importlib.reload(crcmod)
